@@ -28,7 +28,8 @@ def check(run):
         c = rng.choice([100, 101, 128])
         pol = rng.choice(asyncgen.POLICIES)
         occ = rng.choice([0, c - 2, c - 1, c, c + 1])
-        cases.append('%d %s %s' % (c, pol + rng.choice(['', '', '+L']), ' '.join(asyncgen.fill_prefix(c, occ) + asyncgen.random_sequence(rng, c, pol, rng.randint(5, 300), allow_stop=False, occ=occ))))
+        sfx = asyncgen.variant(rng)
+        cases.append('%d %s %s' % (c, pol + sfx, ' '.join(asyncgen.adapt(asyncgen.fill_prefix(c, occ) + asyncgen.random_sequence(rng, c, pol, rng.randint(5, 300), allow_stop=False, occ=occ), sfx))))
 
     def nontrivial(c, obs):
         return any(x.split('|')[1] not in ('0', '') for x in obs.split(';') if '|' in x) or '|b' in obs
@@ -79,7 +80,7 @@ def rolling_policy(run):
 
 def stalled_oracle(case, obs):
     f = case.split()
-    cap, pol, np_, ni = int(f[0]), f[1].replace('+L', ''), int(f[2]), int(f[3])
+    cap, pol, np_, ni = int(f[0]), f[1].split('+')[0], int(f[2]), int(f[3])
     head, deliv = obs.split(' | ')
     ret, counter = head.split()
     if ret != '1':
